@@ -196,6 +196,29 @@ def run(p: Program, rep: Report, tier: str) -> None:
                         body_src = ast.unparse(ast.Module(body=n.body, type_ignores=[]))
                         if f"{qname}.get(" in body_src or f"{qname}.get_nowait(" in body_src:
                             drain_until_done = True
+            # the drain loop POLLS: once the relay's last hand-off was taken nothing more arrives, so each get() blocks for its whole
+            # timeout before done() is looked at again - close() returns that much later than the producer's last step. The poll
+            # interval therefore has to be a small constant of its own, not the (arbitrarily large) ping interval, and never absent.
+            for t in fins:
+                for n in ast.walk(ast.Module(body=t.finalbody, type_ignores=[])):
+                    is_drain = (isinstance(n, ast.While) and "done()" in ast.unparse(n.test)) or (isinstance(n, ast.For) and "done" in ast.unparse(n.iter))
+                    if not is_drain:
+                        continue
+                    for g_ in ast.walk(ast.Module(body=n.body, type_ignores=[])):
+                        if isinstance(g_, ast.Call) and isinstance(g_.func, ast.Attribute) and g_.func.attr == "get" and ast.unparse(g_.func.value) == qname:
+                            to = next((k.value for k in g_.keywords if k.arg == "timeout"), g_.args[1] if len(g_.args) > 1 else None)
+                            blk = next((k.value for k in g_.keywords if k.arg == "block"), g_.args[0] if g_.args else None)
+                            if isinstance(blk, ast.Constant) and blk.value is False:
+                                rep.ok("R6.3", "wsgi: the drain loop polls without blocking")
+                            elif to is None:
+                                rep.violation("R6.3", construct(rs, text=f"drain loop blocks in {qname}.get() without timeout"), where(rs, g_),
+                                              "wsgi: the closing consumer's drain loop calls get() without a timeout: after the relay's last hand-off nothing arrives any more and close() never returns")
+                            elif isinstance(to, ast.Constant) and isinstance(to.value, (int, float)) and not isinstance(to.value, bool) and 0 <= to.value <= 1:
+                                rep.ok("R6.3", f"wsgi: the drain loop polls with a constant timeout of {to.value}s")
+                            else:
+                                rep.violation("R6.3", construct(rs, text=f"drain poll interval {ast.unparse(to)[:40]}"), where(rs, g_),
+                                              f"wsgi: the closing consumer's drain loop polls with timeout={ast.unparse(to)[:40]}: after the relay's last hand-off the get() blocks for that whole time before "
+                                              "done() is re-checked, so close() returns up to one such interval after the producer finished - the producer is released late (unbounded for a large ping interval)")
             # a wait for done() must not wait for a relay that is still QUEUED in the pool (all workers busy with other streams):
             # cancel() has to be tried first and its result has to end the wait
             hn = _handle_names(rs)
